@@ -119,7 +119,7 @@ def attr_program(items, split):
     """split: one #[scale_info(..)] per item, or all items in one attribute"""
     srcs = [item_src(i) for i in items]
     attrs = "".join("#[scale_info(%s)]\n" % s for s in srcs) if split else ("#[scale_info(%s)]\n" % ", ".join(srcs) if srcs else "")
-    return ATTR_PRE + "#[derive(TypeInfo)]\n" + attrs + "struct S<T> { m: PhantomData<T>, n: u8 }\nfn main() { ok::<S<u8>>(); }\n"
+    return ATTR_PRE + "#[derive(TypeInfo)]\n" + attrs + "struct S<T, U> { m: PhantomData<T>, n: PhantomData<U>, k: u8 }\nfn main() { ok::<S<u8, u16>>(); }\n"
 
 def c20_derive_half(c, tier):
     wd = c.wd
